@@ -23,7 +23,7 @@ base_file = Path(f"/tmp/vwt_baseline_{head[:10]}.json")
 if not base_file.exists():
     subprocess.run(["/venv/bin/python", "/verif/tools/seeded_baseline.py"], check=True, stdout=subprocess.DEVNULL)
 baseline = json.loads(base_file.read_text())
-BASE_COMMITS = ["51ed23f", "2c61668", "b59310b", "8fb63a3", "1e5babd"]
+BASE_COMMITS = ["eeb141a", "51ed23f", "2c61668", "b59310b", "8fb63a3", "1e5babd"]
 _lock = threading.Lock()
 _wt_lock = threading.Lock()
 
